@@ -620,6 +620,42 @@ func ruleGlobals(c *Ctx) {
 			c.ob(rule, key, v.Pos(), len(ws) == 0, fmt.Sprintf("package-level variable written at run time by %v: one call can influence the next", ws))
 		}
 	}
+	// no function hands out a package-level pointer (other than the lock-protected cache, handled below, and the
+	// logger): whoever receives it can write through it, which is shared mutable state by another name
+	for _, v := range c.pkgVars() {
+		if _, isPtr := types.Unalias(v.Type()).(*types.Pointer); !isPtr {
+			continue
+		}
+		if isNamed(v.Type(), c.Types, "simpleCache") || v.Name() == "specLogger" {
+			continue
+		}
+		var leaks []string
+		for _, fd := range c.allFuncDecls() {
+			if fd.Body == nil {
+				continue
+			}
+			ast.Inspect(fd.Body, func(n ast.Node) bool {
+				switch x := n.(type) {
+				case *ast.ReturnStmt:
+					for _, r := range x.Results {
+						if id, ok := unparen(r).(*ast.Ident); ok && c.objOf(id) == v {
+							leaks = append(leaks, c.funcName(fd)+"(returns it)")
+						}
+					}
+				case *ast.AssignStmt:
+					for _, r := range x.Rhs {
+						if id, ok := unparen(r).(*ast.Ident); ok && c.objOf(id) == v {
+							leaks = append(leaks, c.funcName(fd)+"(aliases it)")
+						}
+					}
+				}
+				return true
+			})
+		}
+		sort.Strings(leaks)
+		c.ob(rule, "handed-out("+v.Name()+")", v.Pos(), len(leaks) == 0,
+			fmt.Sprintf("the package-level pointer %s is handed out by %v: its callers modify what they receive in place, so concurrent calls race on it and one call leaves its mark on the next", v.Name(), leaks))
+	}
 	// the package cache is only ever shallow-cloned
 	var cacheVar *types.Var
 	for _, v := range c.pkgVars() {
